@@ -59,6 +59,22 @@ def digest(arr):
 WITH_DATA = [True]
 
 
+def scribble(a):
+    """Overwrite an array returned by the implementation, in place."""
+    try:
+        if isinstance(a, np.ndarray) and a.flags.writeable and a.size:
+            if a.dtype.kind in "iuf":
+                a[...] = 77
+            elif a.dtype.kind in "SU":
+                a[...] = "#"
+            elif a.dtype.kind == "O":
+                a[...] = "#"
+            if np.ma.isMA(a) and a.mask is not np.ma.nomask and np.ndim(a.mask):
+                a.mask[...] = ~a.mask
+    except Exception:  # noqa
+        pass
+
+
 def data_obs(c):
     """(shape, digest) of a construct's data; the digest is 'ERR:<class>' when the data
     cannot be brought into memory."""
@@ -71,7 +87,15 @@ def data_obs(c):
         return [list(c.data.shape), "unread"]
     try:
         d = c.data
-        return [list(d.shape), digest(d.array)]
+        a = d.array
+        h = digest(a)
+        # overwrite the returned array in place, then ask again: if the array aliased internal
+        # state of the construct the second answer differs
+        scribble(a)
+        h2 = digest(d.array)
+        if h2 != h:
+            return [list(d.shape), "ALIASED:" + h + "/" + h2]
+        return [list(d.shape), h]
     except Exception as e:  # noqa
         return [None, "ERR:" + type(e).__name__]
 
@@ -283,6 +307,31 @@ def add_foreign(nc):
     v[...] = np.arange(6.0).reshape(3, 2)
 
 
+def add_extra(nc, specs):
+    """Further variables of a case: [{"name", "dims", "dtype": "f8" | "str" | "S1", "attrs": {...}}];
+    dimensions that do not exist are created with size 3."""
+    for sp in specs:
+        for d in sp["dims"]:
+            if d not in nc.dimensions:
+                nc.createDimension(d, 3)
+        dt = {"f8": "f8", "S1": "S1", "str": str}[sp.get("dtype", "f8")]
+        v = nc.createVariable(sp["name"], dt, tuple(sp["dims"]))
+        for a, val in (sp.get("attrs") or {}).items():
+            v.setncattr(a, val)
+        shape = tuple(len(nc.dimensions[d]) for d in sp["dims"])
+        n = int(np.prod(shape)) if shape else 1
+        if dt is str:
+            arr = np.array([f"s{i}" for i in range(n)], dtype=object).reshape(shape)
+            if shape:
+                v[...] = arr
+            else:
+                v[0] = "s0"
+        elif dt == "S1":
+            v[...] = np.array([b"a"] * n, dtype="S1").reshape(shape)
+        else:
+            v[...] = (np.arange(n, dtype="f8") + 1).reshape(shape)
+
+
 def make_base(spec, scratch):
     os.makedirs(os.path.join(scratch, "bases"), exist_ok=True)
     path = os.path.join(scratch, "bases", spec["id"] + ".nc")
@@ -312,6 +361,8 @@ def run_fault_case(case, scratch, wdir):
         try:
             if case.get("foreign"):
                 add_foreign(nc)
+            if case.get("extra_vars"):
+                add_extra(nc, case["extra_vars"])
             for var, attr, new in case["edits"]:
                 tgt = nc if var is None else nc.variables[var]
                 if new is None:
